@@ -96,6 +96,11 @@ impl<Stdout: Write + Clone, Stderr: Write + Clone> Environment<Stdout, Stderr> {
     {
         let path_copy = path.clone();
         let shape_cache = self.shape_cache.clone();
+        #[cfg(feature = "verif")]
+        {
+            let pb: PathBuf = path.clone().into();
+            crate::verif::emit(serde_json::json!({"ev":"ops_cache","path":pb.to_string_lossy(),"hit":self.op_cache.contains(&pb)}));
+        }
         self.op_cache.entry(path.clone()).get_pointer_or_else(
             || {
                 let p = path.into();
